@@ -9,4 +9,4 @@ Extraction "callconv.ml" FuncDetailModel.func_detail_init FuncDetailModel.used_r
   FuncDetailModel.F_CalleePops FuncDetailModel.F_IndirectVec FuncDetailModel.F_FloatsByVec FuncDetailModel.F_VecStackIfVA
   FuncDetailModel.F_MmxByGp FuncDetailModel.F_MmxByXmm FuncDetailModel.F_VarArgCompat FuncDetailModel.rt_group
   AbiLink.monitor AbiLink.abi_of_env Abi.abi_spec Abi.abi_guard
-  DecodeModel.decode SolverFullModel.fsolve SolverFullModel.finit SolverFullModel.fmove_of SolverFullModel.fwf_inputb SolverProofs.wf_inputb SolverModel.solve SolverModel.init_var SolverModel.move_of ShuffleBytesModel.validate_bytes ShuffleModel.validate ShuffleModel.exec ShuffleModel.sym_exec ShuffleModel.alookup ShuffleModel.check_move ShuffleModel.mem_ranges_ok.
+  DecodeModel.decode SolverFullModel.fsolve SolverFullModel.finit SolverFullModel.fmove_of SolverFullModel.fwf_inputb SolverFullModel.farch_okb SolverProofs.wf_inputb SolverModel.solve SolverModel.init_var SolverModel.move_of ShuffleBytesModel.validate_bytes ShuffleModel.validate ShuffleModel.exec ShuffleModel.sym_exec ShuffleModel.alookup ShuffleModel.check_move ShuffleModel.mem_ranges_ok.
